@@ -432,6 +432,7 @@ func registerC06() {
 			"header data size and CRCs are C05's subject",
 		},
 		MinNontrivial: 300,
+		Families386:   []string{"fields"}, // every field alone once more in a GOARCH=386 binary (32-bit int)
 		Families: []lib.Family{
 			{Name: "files", N: func(t string) uint64 { return tierN(t, 68000, 1000000) }, Run: c06Files},
 			{Name: "fields", N: c06FieldsN, Run: c06Fields},
